@@ -165,7 +165,7 @@ Print Assumptions dok_nnz_ext_partial.
 (* asformat("coo") followed by DOK.from_coo gives back the very same dict *)
 Theorem dok_roundtrip_state :
   forall (dt : dtype) (sh : shape) (fill : Z) (ops : list hop),
-    shape_ok sh -> sh <> [] -> dtype_ok dt = true -> forallb (hop_dom dt sh) ops = true ->
+    shape_ok sh -> dtype_ok dt = true -> forallb (hop_dom dt sh) ops = true ->
     roundtrip sh fill (hrun dt sh fill ops) = hrun dt sh fill ops.
 Proof. exact dok_roundtrip_state_proof. Qed.
 Print Assumptions dok_roundtrip_state.
@@ -175,7 +175,7 @@ Print Assumptions dok_roundtrip_state.
    cut-over schedule kf of the mask kernels, d[ix] after an in-domain history is NumPy's x[ix] *)
 Theorem dok_real_read_partial :
   forall (kf : nat -> nat) (dt : dtype) (sh : shape) (fill : Z) (ops : list hop) (ix : index),
-    shape_ok sh -> sh <> [] -> dtype_ok dt = true -> forallb (hop_dom dt sh) ops = true ->
+    shape_ok sh -> dtype_ok dt = true -> forallb (hop_dom dt sh) ops = true ->
     no_zero_step ix = true -> coo_ix_ok sh ix -> fancy_key ix = false ->
     match np_index sh ix with
     | Raise e => real_getitem kf sh fill (hrun dt sh fill ops) ix = Raise e /\ e = IndexError
@@ -195,7 +195,7 @@ Print Assumptions dok_real_read_partial.
 Theorem dok_real_fancy_read_partial :
   forall (kf : nat -> nat) (dt : dtype) (sh : shape) (fill : Z) (ops : list hop)
          (ls : list (list Z)) (n : nat),
-    shape_ok sh -> sh <> [] -> dtype_ok dt = true -> forallb (hop_dom dt sh) ops = true ->
+    shape_ok sh -> dtype_ok dt = true -> forallb (hop_dom dt sh) ops = true ->
     fancy_ok sh ls n ->
     exists g it',
       np_index sh (map IArr ls) = Ok ([Z.of_nat n], g)
